@@ -76,6 +76,10 @@ package streams
 //@   ensures[C01,C08] inuse == streams_cas_done
 //@   ensures[C01,C08] inuse ==> streams_cas_count == 1 && inuseStreams_add_count == 1 && inuseStreams_add_sum == -1
 //@   ensures[C01,C08] !inuse ==> streams_cas_count == 0 && inuseStreams_add_count == 0
+// "not in use" is reported only after the stream's bit has been seen clear in its word (never for a handed-out id
+// without looking): clr[w] keeps the bits that were set in every value of word w this call has read
+//@   observe streams into clr all
+//@   ensures[C01,C08] !inuse ==> clr[stream/64] & (1 << uint(63 - stream%64)) == 0
 //@   loop 0: invariant !streams_cas_done && streams_cas_count == 0 && inuseStreams_add_count == 0 && inuseStreams_add_sum == 0
 //@   loop 0: invariant bucket&mask == mask
 
